@@ -58,6 +58,14 @@ def l1(rep, tier):
     r = tlc.run("ShuffleSampler", CFG.format(variant="none", sep="Separated", **unis[2]), label="int mode strict separation",
                 workers=8, timeout=600, coverage=False)
     rep.extra["int_mode_strict_separation_fails_in_spec"] = "Separated" in r.violated
+    # unbounded bounds / distance / number of pivots: the bookkeeping invariant is inductive (Apalache); not with the pre-fix subtraction
+    out = {"base": tlc.apalache("ShuffleInd", "Init", "IndInv", 0), "step": tlc.apalache("ShuffleInd", "IndInitFixed", "IndInv", 1),
+           "pre_fix_subtraction": tlc.apalache("ShuffleInd", "IndInitBuggy", "IndInv", 1)}
+    rep.extra["apalache_inductive"] = out
+    if out["base"] == "Error" or out["step"] == "Error":
+        raise MachineryError(f"the pivot bookkeeping invariant is not inductive in ShuffleInd.tla: {out}")
+    if out["step"] == "NoError" and out["pre_fix_subtraction"] == "Error":
+        rep.extra.setdefault("mutants_killed", []).append("ShuffleInd(Apalache):extend_segments")
 
 
 class UniformProbe:
